@@ -127,12 +127,10 @@ theorem setMiniFat_ok2 {p p' : P} {idx val : Nat} (h : setMiniFat p idx val = .o
   split at h
   · cases h
   · split at h
-    · cases h
+    · rename_i he; cases h; exact Or.inl ⟨he, rfl⟩
     · split at h
-      · rename_i he; cases h; exact Or.inl ⟨he, rfl⟩
-      · split at h
-        · rename_i hl; cases h; exact Or.inr ⟨hl, rfl⟩
-        · cases h
+      · rename_i hl; cases h; exact Or.inr ⟨hl, rfl⟩
+      · cases h
 
 theorem mf_ensureRootRoom {p p' : P} (h : ensureRootRoom p = .ok p') : p'.miniFat = p.miniFat := by
   unfold ensureRootRoom at h
